@@ -982,3 +982,65 @@ def no_clamped_conversion(chk, repo, rid, quals, converter='coordinate_genomic_t
         chk.ob(rid, f"{q}: {len(calls)} converted positions are the reported ones", f.where, not bad,
                '; '.join(f"`{unparse(c.args[0])}` derives from {w}" for c, w in bad[:2]) + ': the reported span is cut to fit before the conversion, so an event '
                'touching the gene / transcript boundary is emitted truncated instead of being rejected', key=q + '::clamp', fn=f.qual)
+
+
+def circ_writer(repo, wr):
+    """CircRNAModel.to_string evaluated to a string template (E9): tab-separated columns, the `KEY=value` pieces of the info
+    column, the value written to the start column (anchor) and the affine value of one OFFSET / LENGTH element over
+    fragment = generic element of self.fragments and F0 = the start column."""
+    from sa.peval import PEval, Tmpl, SymList, show as pshow
+    from sa.affine import Interp, Path as APath
+    from sa.model import AnalysisError
+    try:
+        wouts = [o for o in PEval(split_unknown=True).run(wr.node, {}) if o.kind == 'return' and '<loop not entered>' not in o.assumed]
+    except (ValueError, OverflowError):
+        wouts = []
+    if not wouts or not all(isinstance(o.value, Tmpl) for o in wouts):
+        raise AnalysisError(f"anchor={wr.qual}: to_string does not evaluate to string templates")
+    from sa.affine import Aff
+    variants = [_circ_variant(o.value) for o in wouts]
+    for v in variants:
+        if not (v['anchor_core'] == 'self.fragments[0].location.start' and v['off'] == Aff.sym('fragment.location.start') - Aff.sym('F0')
+                and v['len'] == Aff.sym('fragment.location.end') - Aff.sym('fragment.location.start') and list(v['info']) == list(variants[0]['info'])
+                and len(v['cols']) == 8 and [c.text for c in v['cols'][:1] + v['cols'][2:7]] == [c.text for c in variants[0]['cols'][:1] + variants[0]['cols'][2:7]]):
+            return v          # the outcome (path through to_string) that deviates is the one the rules report on
+    return variants[0]
+
+
+def _circ_variant(tmpl):
+    from sa.peval import Tmpl, SymList, show as pshow
+    from sa.affine import Interp, Path as APath
+    wcols = tmpl.split('\t')
+    winfo = {}
+    for piece in (wcols[7].split(';') if len(wcols) == 8 else []):
+        if piece.parts and isinstance(piece.parts[0], str) and '=' in piece.parts[0]:
+            k, rest = piece.parts[0].split('=', 1)
+            winfo[k] = Tmpl([rest] + piece.parts[1:])
+
+    def unstr(t):
+        while t.startswith('str(') and t.endswith(')'):
+            t = t[4:-1]
+        return t
+
+    def colval(i):
+        v = wcols[i].single() if i < len(wcols) else None
+        return unstr(pshow(v)) if v is not None else ''
+    anchor = colval(1)
+    anchor_core = anchor[4:-1] if anchor.startswith('int(') and anchor.endswith(')') else anchor
+    it, p = Interp(1), APath()
+
+    def elem_aff(key):
+        v = winfo[key].single() if key in winfo else None
+        if isinstance(v, SymList) and v.sep is not None:
+            v = v.elt
+        t = unstr(pshow(v)) if v is not None else ''
+        t = t.replace('<item of self.fragments>', 'fragment')
+        for a_ in (anchor, anchor_core):
+            if a_:
+                t = t.replace(a_, 'F0')
+        try:
+            return it.ev(p, ast.parse(t, mode='eval').body)
+        except Exception:
+            return None
+    return {'cols': wcols, 'info': winfo, 'anchor': anchor, 'anchor_core': anchor_core, 'off': elem_aff('OFFSET'), 'len': elem_aff('LENGTH'),
+            'colval': colval}
